@@ -187,6 +187,7 @@ def zoo_node_at(root, path):
 
 def run_shard(cfg):
     rec = Rec(cfg)
+    rec.extra['first_use'] = zoo.warm_up(cfg['k'])
     U = zoo.universe(UNIV)
     idx = 0
     from .c05 import big_trees
